@@ -239,7 +239,9 @@ def main() -> int:
         if sys.argv[2] == "--replay":
             with open(sys.argv[3], encoding="utf-8") as f:
                 rec = json.load(f)
-            res = mod.replay(rec["witness"])
+            from vf.core.result import thaw
+
+            res = mod.replay(thaw(rec["witness"]))
             j = res.to_json()
             if j["violations"]:
                 for v in j["violations"]:
